@@ -193,6 +193,7 @@ fn run_scenario(line: &str) -> Vec<String> {
     }));
     web_sys::take_mutations();
     web_sys::take_warnings();
+    verif_clear_hydrate_nodes();
     match r {
         Ok(v) => v,
         Err(_) => {
